@@ -65,17 +65,15 @@ impl SortingInference<'_> {
             .map(|(riid, rel_inst)| (riid, &rel_inst.cid_redirects))
             .collect::<HashMap<_, _>>();
 
-        // a map of column -> alias
-        // (a column may have several aliases; `column_decls` is a hash map, so pick the
-        // first declared one to not depend on the iteration order)
-        let mut column_aliases: HashMap<CId, CId> = HashMap::new();
+        // a map of column -> aliases, in order of declaration
+        // (`column_decls` is a hash map: sort, to not depend on the iteration order)
+        let mut column_aliases: HashMap<CId, Vec<CId>> = HashMap::new();
         for col in self.ctx.anchor.column_decls.values() {
             if let ColumnDecl::Compute(compute) = col {
                 if let ExprKind::ColumnRef(referenced_id) = compute.expr.kind {
-                    column_aliases
-                        .entry(referenced_id)
-                        .and_modify(|alias| *alias = (*alias).min(compute.id))
-                        .or_insert(compute.id);
+                    let aliases = column_aliases.entry(referenced_id).or_default();
+                    aliases.push(compute.id);
+                    aliases.sort();
                 }
             }
         }
@@ -122,14 +120,16 @@ impl SortingInference<'_> {
                     );
                     return;
                 }
-                // try renaming
-                if column_aliases.contains_key(&sort.column) {
-                    let alias = column_aliases[&sort.column];
+                // try renaming; only to an alias that is still around: an alias that nothing
+                // downstream uses is pruned, and has neither a name nor a redirect
+                let cid_mappings = redirects[riid];
+                let alias = (column_aliases.get(&sort.column).into_iter().flatten())
+                    .find(|a| cid_mappings.contains_key(a) || final_select.contains(a));
+                if let Some(alias) = alias {
                     log::debug!("..aliasing {:?} as {alias:?}", &sort.column);
-                    sort.column = alias;
+                    sort.column = *alias;
                 }
                 // try de-reverting with the target table
-                let cid_mappings = redirects[riid];
                 if cid_mappings.contains_key(&sort.column) {
                     log::debug!(
                         ".. reverting {:?} forward to {:?} via redirects of {riid:?} ({:?})",
